@@ -1,6 +1,6 @@
 """debug aid: why is a path infeasible?  usage: dbg_path.py <fn key> <substring of trace>...   (finds the shortest infeasible prefix of the pc)"""
 import sys, traceback
-sys.path.insert(0, '/verif')
+import os; sys.path.insert(0, os.environ.get('VERIF_HOME', '/verif'))
 import z3
 from pyvc import smt, verify, symexec
 import contracts
